@@ -2338,94 +2338,88 @@ let rec has_rbrace = function
 | c :: r ->
   (||) (N.eqb c (Npos (XI (XO (XI (XI (XI (XI XH)))))))) (has_rbrace r)
 
-(** val py_text : n list -> pyres **)
+(** val py_lit : bool -> n list -> pyres **)
 
-let rec py_text = function
+let rec py_lit t0 = function
 | [] -> PyValue []
 | c :: r ->
-  if negb (N.eqb c (Npos (XO (XO (XI (XI (XI (XO XH))))))))
-  then pcons c (py_text r)
-  else (match r with
-        | [] -> PyNotBody
-        | e :: r1 ->
-          if N.eqb e (Npos (XO (XI (XO XH))))
-          then py_text r1
-          else (match simple_escape e with
-                | Some v -> pcons v (py_text r1)
-                | None ->
-                  if is_octd e
-                  then (match r1 with
-                        | [] ->
-                          pcons (N.sub e (Npos (XO (XO (XO (XO (XI XH)))))))
-                            (py_text r1)
-                        | d2 :: r2 ->
-                          if is_octd d2
-                          then (match r2 with
-                                | [] ->
-                                  pcons
-                                    (N.add
-                                      (N.mul (Npos (XO (XO (XO XH))))
-                                        (N.sub e (Npos (XO (XO (XO (XO (XI
-                                          XH))))))))
-                                      (N.sub d2 (Npos (XO (XO (XO (XO (XI
-                                        XH)))))))) (py_text r2)
-                                | d3 :: r3 ->
-                                  if is_octd d3
-                                  then pcons
-                                         (N.add
-                                           (N.add
-                                             (N.mul (Npos (XO (XO (XO (XO (XO
-                                               (XO XH)))))))
-                                               (N.sub e (Npos (XO (XO (XO (XO
-                                                 (XI XH))))))))
-                                             (N.mul (Npos (XO (XO (XO XH))))
-                                               (N.sub d2 (Npos (XO (XO (XO
-                                                 (XO (XI XH)))))))))
-                                           (N.sub d3 (Npos (XO (XO (XO (XO
-                                             (XI XH)))))))) (py_text r3)
-                                  else pcons
+  if (&&) (negb t0) (N.leb (Npos (XO (XO (XO (XO (XO (XO (XO XH)))))))) c)
+  then PyReject
+  else if negb (N.eqb c (Npos (XO (XO (XI (XI (XI (XO XH))))))))
+       then pcons c (py_lit t0 r)
+       else (match r with
+             | [] -> PyNotBody
+             | e :: r1 ->
+               if N.eqb e (Npos (XO (XI (XO XH))))
+               then py_lit t0 r1
+               else (match simple_escape e with
+                     | Some v -> pcons v (py_lit t0 r1)
+                     | None ->
+                       if is_octd e
+                       then (match r1 with
+                             | [] ->
+                               pcons
+                                 (N.sub e (Npos (XO (XO (XO (XO (XI XH)))))))
+                                 (py_lit t0 r1)
+                             | d2 :: r2 ->
+                               if is_octd d2
+                               then (match r2 with
+                                     | [] ->
+                                       pcons
                                          (N.add
                                            (N.mul (Npos (XO (XO (XO XH))))
                                              (N.sub e (Npos (XO (XO (XO (XO
                                                (XI XH))))))))
                                            (N.sub d2 (Npos (XO (XO (XO (XO
-                                             (XI XH)))))))) (py_text r2))
-                          else pcons
-                                 (N.sub e (Npos (XO (XO (XO (XO (XI XH)))))))
-                                 (py_text r1))
-                  else if N.eqb e (Npos (XO (XO (XO (XI (XI (XI XH)))))))
-                       then (match r1 with
-                             | [] -> PyReject
-                             | h1 :: l0 ->
-                               (match l0 with
-                                | [] -> PyReject
-                                | h2 :: r2 ->
-                                  if (&&) (is_hexd h1) (is_hexd h2)
-                                  then pcons (hex2 h1 h2) (py_text r2)
-                                  else PyReject))
-                       else if N.eqb e (Npos (XI (XO (XI (XO (XI (XI XH)))))))
+                                             (XI XH)))))))) (py_lit t0 r2)
+                                     | d3 :: r3 ->
+                                       if is_octd d3
+                                       then let v =
+                                              N.add
+                                                (N.add
+                                                  (N.mul (Npos (XO (XO (XO
+                                                    (XO (XO (XO XH)))))))
+                                                    (N.sub e (Npos (XO (XO
+                                                      (XO (XO (XI XH))))))))
+                                                  (N.mul (Npos (XO (XO (XO
+                                                    XH))))
+                                                    (N.sub d2 (Npos (XO (XO
+                                                      (XO (XO (XI XH)))))))))
+                                                (N.sub d3 (Npos (XO (XO (XO
+                                                  (XO (XI XH)))))))
+                                            in
+                                            pcons
+                                              (if t0
+                                               then v
+                                               else N.modulo v (Npos (XO (XO
+                                                      (XO (XO (XO (XO (XO (XO
+                                                      XH))))))))))
+                                              (py_lit t0 r3)
+                                       else pcons
+                                              (N.add
+                                                (N.mul (Npos (XO (XO (XO
+                                                  XH))))
+                                                  (N.sub e (Npos (XO (XO (XO
+                                                    (XO (XI XH))))))))
+                                                (N.sub d2 (Npos (XO (XO (XO
+                                                  (XO (XI XH))))))))
+                                              (py_lit t0 r2))
+                               else pcons
+                                      (N.sub e (Npos (XO (XO (XO (XO (XI
+                                        XH))))))) (py_lit t0 r1))
+                       else if N.eqb e (Npos (XO (XO (XO (XI (XI (XI XH)))))))
                             then (match r1 with
                                   | [] -> PyReject
                                   | h1 :: l0 ->
                                     (match l0 with
                                      | [] -> PyReject
-                                     | h2 :: l1 ->
-                                       (match l1 with
-                                        | [] -> PyReject
-                                        | h3 :: l2 ->
-                                          (match l2 with
-                                           | [] -> PyReject
-                                           | h4 :: r2 ->
-                                             if (&&)
-                                                  ((&&)
-                                                    ((&&) (is_hexd h1)
-                                                      (is_hexd h2))
-                                                    (is_hexd h3)) (is_hexd h4)
-                                             then pcons (hex4 h1 h2 h3 h4)
-                                                    (py_text r2)
-                                             else PyReject))))
-                            else if N.eqb e (Npos (XI (XO (XI (XO (XI (XO
-                                      XH)))))))
+                                     | h2 :: r2 ->
+                                       if (&&) (is_hexd h1) (is_hexd h2)
+                                       then pcons (hex2 h1 h2) (py_lit t0 r2)
+                                       else PyReject))
+                            else if (&&) t0
+                                      (N.eqb e (Npos (XI (XO (XI (XO (XI (XI
+                                        XH))))))))
                                  then (match r1 with
                                        | [] -> PyReject
                                        | h1 :: l0 ->
@@ -2437,21 +2431,48 @@ let rec py_text = function
                                              | h3 :: l2 ->
                                                (match l2 with
                                                 | [] -> PyReject
-                                                | h4 :: l3 ->
-                                                  (match l3 with
-                                                   | [] -> PyReject
-                                                   | h5 :: l4 ->
-                                                     (match l4 with
-                                                      | [] -> PyReject
-                                                      | h6 :: l5 ->
-                                                        (match l5 with
-                                                         | [] -> PyReject
-                                                         | h7 :: l6 ->
-                                                           (match l6 with
-                                                            | [] -> PyReject
-                                                            | h8 :: r2 ->
-                                                              if (&&)
-                                                                   ((&&)
+                                                | h4 :: r2 ->
+                                                  if (&&)
+                                                       ((&&)
+                                                         ((&&) (is_hexd h1)
+                                                           (is_hexd h2))
+                                                         (is_hexd h3))
+                                                       (is_hexd h4)
+                                                  then pcons
+                                                         (hex4 h1 h2 h3 h4)
+                                                         (py_lit t0 r2)
+                                                  else PyReject))))
+                                 else if (&&) t0
+                                           (N.eqb e (Npos (XI (XO (XI (XO (XI
+                                             (XO XH))))))))
+                                      then (match r1 with
+                                            | [] -> PyReject
+                                            | h1 :: l0 ->
+                                              (match l0 with
+                                               | [] -> PyReject
+                                               | h2 :: l1 ->
+                                                 (match l1 with
+                                                  | [] -> PyReject
+                                                  | h3 :: l2 ->
+                                                    (match l2 with
+                                                     | [] -> PyReject
+                                                     | h4 :: l3 ->
+                                                       (match l3 with
+                                                        | [] -> PyReject
+                                                        | h5 :: l4 ->
+                                                          (match l4 with
+                                                           | [] -> PyReject
+                                                           | h6 :: l5 ->
+                                                             (match l5 with
+                                                              | [] -> PyReject
+                                                              | h7 :: l6 ->
+                                                                (match l6 with
+                                                                 | [] ->
+                                                                   PyReject
+                                                                 | h8 :: r2 ->
+                                                                   if 
+                                                                    (&&)
+                                                                    ((&&)
                                                                     ((&&)
                                                                     ((&&)
                                                                     ((&&)
@@ -2471,9 +2492,10 @@ let rec py_text = function
                                                                     h6))
                                                                     (is_hexd
                                                                     h7))
-                                                                   (is_hexd
+                                                                    (is_hexd
                                                                     h8)
-                                                              then let v =
+                                                                   then 
+                                                                    let v =
                                                                     N.add
                                                                     (N.mul
                                                                     (Npos (XO
@@ -2490,8 +2512,8 @@ let rec py_text = function
                                                                     h2 h3 h4))
                                                                     (hex4 h5
                                                                     h6 h7 h8)
-                                                                   in
-                                                                   if 
+                                                                    in
+                                                                    if 
                                                                     N.ltb v
                                                                     (Npos (XO
                                                                     (XO (XO
@@ -2505,107 +2527,40 @@ let rec py_text = function
                                                                     (XO (XO
                                                                     (XO
                                                                     XH)))))))))))))))))))))
-                                                                   then 
+                                                                    then 
                                                                     pcons v
-                                                                    (py_text
-                                                                    r2)
-                                                                   else 
+                                                                    (py_lit
+                                                                    t0 r2)
+                                                                    else 
                                                                     PyReject
-                                                              else PyReject))))))))
-                                 else if N.eqb e (Npos (XO (XI (XI (XI (XO
-                                           (XO XH)))))))
-                                      then (match r1 with
-                                            | [] -> PyReject
-                                            | b :: r2 ->
-                                              if (&&)
-                                                   (N.eqb b (Npos (XI (XI (XO
-                                                     (XI (XI (XI XH))))))))
-                                                   (has_rbrace r2)
-                                              then PyNamed
-                                              else PyReject)
-                                      else pcons (Npos (XO (XO (XI (XI (XI
-                                             (XO XH)))))))
-                                             (pcons e (py_text r1))))
+                                                                   else 
+                                                                    PyReject))))))))
+                                      else if (&&) t0
+                                                (N.eqb e (Npos (XO (XI (XI
+                                                  (XI (XO (XO XH))))))))
+                                           then (match r1 with
+                                                 | [] -> PyReject
+                                                 | b :: r2 ->
+                                                   if (&&)
+                                                        (N.eqb b (Npos (XI
+                                                          (XI (XO (XI (XI (XI
+                                                          XH))))))))
+                                                        (has_rbrace r2)
+                                                   then PyNamed
+                                                   else PyReject)
+                                           else pcons (Npos (XO (XO (XI (XI
+                                                  (XI (XO XH)))))))
+                                                  (py_lit t0 r)))
+
+(** val py_text : n list -> pyres **)
+
+let py_text =
+  py_lit true
 
 (** val py_bytes : n list -> pyres **)
 
-let rec py_bytes = function
-| [] -> PyValue []
-| c :: r ->
-  if N.leb (Npos (XO (XO (XO (XO (XO (XO (XO XH)))))))) c
-  then PyReject
-  else if negb (N.eqb c (Npos (XO (XO (XI (XI (XI (XO XH))))))))
-       then pcons c (py_bytes r)
-       else (match r with
-             | [] -> PyNotBody
-             | e :: r1 ->
-               if N.eqb e (Npos (XO (XI (XO XH))))
-               then py_bytes r1
-               else (match simple_escape e with
-                     | Some v -> pcons v (py_bytes r1)
-                     | None ->
-                       if is_octd e
-                       then (match r1 with
-                             | [] ->
-                               pcons
-                                 (N.sub e (Npos (XO (XO (XO (XO (XI XH)))))))
-                                 (py_bytes r1)
-                             | d2 :: r2 ->
-                               if is_octd d2
-                               then (match r2 with
-                                     | [] ->
-                                       pcons
-                                         (N.add
-                                           (N.mul (Npos (XO (XO (XO XH))))
-                                             (N.sub e (Npos (XO (XO (XO (XO
-                                               (XI XH))))))))
-                                           (N.sub d2 (Npos (XO (XO (XO (XO
-                                             (XI XH)))))))) (py_bytes r2)
-                                     | d3 :: r3 ->
-                                       if is_octd d3
-                                       then pcons
-                                              (N.modulo
-                                                (N.add
-                                                  (N.add
-                                                    (N.mul (Npos (XO (XO (XO
-                                                      (XO (XO (XO XH)))))))
-                                                      (N.sub e (Npos (XO (XO
-                                                        (XO (XO (XI XH))))))))
-                                                    (N.mul (Npos (XO (XO (XO
-                                                      XH))))
-                                                      (N.sub d2 (Npos (XO (XO
-                                                        (XO (XO (XI XH)))))))))
-                                                  (N.sub d3 (Npos (XO (XO (XO
-                                                    (XO (XI XH)))))))) (Npos
-                                                (XO (XO (XO (XO (XO (XO (XO
-                                                (XO XH)))))))))) (py_bytes r3)
-                                       else pcons
-                                              (N.add
-                                                (N.mul (Npos (XO (XO (XO
-                                                  XH))))
-                                                  (N.sub e (Npos (XO (XO (XO
-                                                    (XO (XI XH))))))))
-                                                (N.sub d2 (Npos (XO (XO (XO
-                                                  (XO (XI XH))))))))
-                                              (py_bytes r2))
-                               else pcons
-                                      (N.sub e (Npos (XO (XO (XO (XO (XI
-                                        XH))))))) (py_bytes r1))
-                       else if N.eqb e (Npos (XO (XO (XO (XI (XI (XI XH)))))))
-                            then (match r1 with
-                                  | [] -> PyReject
-                                  | h1 :: l0 ->
-                                    (match l0 with
-                                     | [] -> PyReject
-                                     | h2 :: r2 ->
-                                       if (&&) (is_hexd h1) (is_hexd h2)
-                                       then pcons (hex2 h1 h2) (py_bytes r2)
-                                       else PyReject))
-                            else if N.leb (Npos (XO (XO (XO (XO (XO (XO (XO
-                                      XH)))))))) e
-                                 then PyReject
-                                 else pcons (Npos (XO (XO (XI (XI (XI (XO
-                                        XH))))))) (pcons e (py_bytes r1))))
+let py_bytes =
+  py_lit false
 
 (** val py_raw : bool -> n list -> pyres **)
 
@@ -3468,8 +3423,9 @@ let py_object l =
 
 let id_codec =
   { ext_compress = (fun a d ->
-    if N.eqb a (Npos (XI XH)) then None else Some (a :: d)); ext_decompress =
-    (fun a c ->
+    if (||) (N.eqb a (Npos XH)) (N.eqb a (Npos (XO XH)))
+    then Some (a :: d)
+    else None); ext_decompress = (fun a c ->
     match c with
     | [] -> None
     | x :: d -> if N.eqb x a then Some d else None) }
